@@ -27,7 +27,7 @@ import logging
 logging.getLogger("onnx_ir").setLevel(logging.ERROR)
 LEVEL = "exploration"
 TIERS = {
-    "quick": {"wall": 33, "optimize_wall": 7, "chunk": 40, "shrink_budget": 250, "shrink_wall": 60},
+    "quick": {"max_runs": 4000, "optimize_runs": 800, "wall": 420, "optimize_wall": 180, "chunk": 40, "shrink_budget": 250, "shrink_wall": 60},
     "thorough": {"wall": 600, "optimize_wall": 90, "chunk": 200, "shrink_budget": 600, "shrink_wall": 240},
 }
 RULE = (
